@@ -15,6 +15,14 @@ TECH = {
             "same stubs as C01; n, rpc enumerated except the encoding obligation"),
     "C11": ("CrossHair/z3 symbolic execution against a logging abstract filesystem; assertions on the request log",
             "fsspec file contract; n, rpc, steps enumerated; offsets/sizes symbolic"),
+    "C03": ("z3 LIA over the live construct layouts vs the pinned layout (unbounded record length); CrossHair/z3 symbolic execution of the real image metadata transformers on parsed documents with symbolic field values; adapter and header-attribute lemmas",
+            "pinned layout/tree tables are regression oracles audited against independent anchors; 1-3 lines; order asserted by a concrete twin"),
+    "C04": ("z3 LIA: 956 leader fields vs pinned linear offsets for all structure parameters; CrossHair/z3 on the ASCII adapters for all strings up to the bound and on the real leader transformers with ~480 symbolic field values x 7 structure variants",
+            "int()/float() uninterpreted; pinned tables are regression oracles with 16 independent CEOS anchors"),
+    "C16": ("z3 LIA on the live volume-directory layout for every file-pointer count; CrossHair/z3 on PaddedString and on the real volume transformers with symbolic texts",
+            "pinned layout; strings bounded; timestamp format shared with C17"),
+    "C20": ("CrossHair/z3 on the blank-field adapters and header attributes; sentinel flow = plumbing obligations for all integer values; z3 tiling proof + pinned-table check that spare areas never reach the tree; remove_spares on symbolic keys",
+            "spare areas identified by name; numeric leaves as integers"),
     "C07": ("CrossHair/z3 symbolic execution of open_image / read_cache / create_cache / cli.create_cache / array codec on a world model with symbolic cache state, options and product protocol; concrete end-to-end witness replays",
             "json, pathlib, hashlib, fsspec, construct record parsing are contract stubs (validated each run); geometry and rpc enumerated per instance"),
     "C08": ("CrossHair/z3 symbolic execution of the real encoders/decoders over an integer model of numpy (int64 wrap, NaT, units) and a structural json contract: round trip decided for all element values",
